@@ -67,6 +67,15 @@ func c20Universes(level int) []c20Universe {
 	// same base name in two directories: x/main.json -> ./common.json (x/common.json), y/main.json -> ./common.json (y/common.json)
 	us = append(us, mk("same-basename", [4]string{"x/mainx.json", "x/common.json", "y/mainy.json", "y/common.json"},
 		[4]J{{"c": ref("./common.json")}, {"fromX": str}, {"c": ref("./common.json")}, {"fromY": in}}, [4]J{}, noExtra))
+	common := func(field string, t J) J {
+		return J{"Common": J{"type": "object", "properties": J{field: t}, "required": A{field}}}
+	}
+	us = append(us, mk("same-def-name/flat", flat,
+		[4]J{{"a1": str, "viaAllOf": J{"allOf": A{ref("#/$defs/Common"), J{"type": "object", "properties": J{"ax": in}}}}},
+			{"b1": in, "viaAllOf": J{"allOf": A{ref("#/$defs/Common"), J{"type": "object", "properties": J{"bx": str}}}}},
+			{"c1": str, "viaAnyOf": J{"anyOf": A{ref("#/$defs/Common"), J{"type": "object", "properties": J{"cx": in}, "required": A{"cx"}}}}},
+			{"d1": in, "plain": ref("#/$defs/Common")}},
+		[4]J{common("fromA", str), common("fromB", in), common("fromC", J{"type": "boolean"}), common("fromD", J{"type": "number"})}, noExtra))
 	if level >= 1 {
 		us = append(us, mk("star/flat", flat, [4]J{{"b": ref("b.json"), "c": ref("c.json"), "d": ref("d.json")}, {"b1": in}, {"c1": str}, {"d1": in}}, ownDefs, noExtra))
 		us = append(us, mk("defs-chain/flat", flat, [4]J{{"x": ref("b.json#/$defs/BDef")}, {"y": ref("c.json#/$defs/CDef")}, {"z": ref("d.json#/$defs/DDef")}, {"d1": in}}, ownDefs, noExtra))
@@ -103,6 +112,12 @@ func c20Mappings(level int) []c20Mapping {
 		c := base()
 		c.Mappings = []genlab.Mapping{{ID: ids[0], Package: "example.com/m/p", Output: "p/x.go"}, {ID: ids[1], Package: "example.com/m/p", Output: "p/y.go"},
 			{ID: ids[2], Package: "example.com/m/p", Output: "p/z.go"}, {ID: ids[3], Package: "example.com/m/p", Output: "p/x.go"}}
+		return c
+	}})
+	ms = append(ms, c20Mapping{"same-last-element", func(ids []string) genlab.Cfg {
+		c := base()
+		c.Mappings = []genlab.Mapping{{ID: ids[0], Package: "example.com/m/a/types", Output: "a/types/x.go"}, {ID: ids[1], Package: "example.com/m/a/types", Output: "a/types/y.go"},
+			{ID: ids[2], Package: "example.com/m/b/types", Output: "b/types/z.go"}, {ID: ids[3], Package: "example.com/m/b/types", Output: "b/types/w.go"}}
 		return c
 	}})
 	if level >= 1 {
@@ -259,6 +274,7 @@ func c20(ctx *Ctx) {
 				states[name+"\n"+st.key()] = true
 				transitions += len(hs[i])
 			}
+			sameDef := u.name == "same-def-name/flat"
 			for i, h := range hs {
 				k := fmt.Sprint(h)
 				st := obs[k]
@@ -298,14 +314,36 @@ func c20(ctx *Ctx) {
 					}
 					for dk, text := range alone.declKeys() {
 						if prev, ok := want[dk]; ok && prev != text {
-							ctx.Run.Violation("alone-states-disagree", fmt.Sprintf("C20/%s: declaration %s differs between processing %s alone and %s alone", name, dk, u.files[wantFrom[dk]].Path, u.files[j].Path), replay)
-							skip = true
+							skip = true // two files declare the same name differently: the generator must rename one of them
 						}
 						want[dk] = text
 						wantFrom[dk] = j
 					}
 				}
 				if skip {
+					allOK := true
+					for _, j := range h {
+						if obs[fmt.Sprint([]int{j})].err != "" {
+							allOK = false
+						}
+					}
+					if allOK {
+						repeated := len(h) >= 2 && func() bool {
+							for _, x := range h[:len(h)-1] {
+								if x == h[len(h)-1] {
+									return true
+								}
+							}
+							return false
+						}()
+						msg := c20ComposeRenamed(h, obs, st)
+						if msg != "" && sameDef && repeated && strings.Contains(msg, "number of declarations") && ctx.Run.Listed("SAME_DEF_NAME_TWO_FILES_ONE_PACKAGE") {
+							ctx.Run.Known("SAME_DEF_NAME_TWO_FILES_ONE_PACKAGE", fmt.Sprintf("C20/%s: history %v (a file processed twice): %s", name, h, msg), replay)
+						} else if msg != "" {
+							ctx.Run.Violation("composition-up-to-renaming", fmt.Sprintf("C20/%s: history %v: the state is not the composition of the single-file states, even up to a consistent renaming of the colliding type names: %s", name, h, msg), replay)
+						}
+						ctx.Run.Count("states_compared_up_to_renaming", 1)
+					}
 					continue
 				}
 				got := st.declKeys()
@@ -323,6 +361,10 @@ func c20(ctx *Ctx) {
 					}
 				}
 				for dn, fs := range count {
+					if len(fs) > 1 && sameDef && strings.Contains(dn, "Common") && ctx.Run.Listed("SAME_DEF_NAME_TWO_FILES_ONE_PACKAGE") {
+						ctx.Run.Known("SAME_DEF_NAME_TWO_FILES_ONE_PACKAGE", fmt.Sprintf("C20/%s: history %v: %s is emitted in %v", name, h, dn, fs), replay)
+						break
+					}
 					if len(fs) > 1 {
 						ctx.Run.Violation("declared-twice", fmt.Sprintf("C20/%s: history %v: %s is emitted %d times (%v)", name, h, dn, len(fs), fs), replay)
 						break
@@ -330,7 +372,9 @@ func c20(ctx *Ctx) {
 				}
 				// (I3) all packages type-check together (only for maximal histories and singletons: the check is the same function of the state)
 				if len(h) == 1 || len(h) == 4 {
-					if msg := c20TypeCheck(chk, cfg, st); msg != "" {
+					if msg := c20TypeCheck(chk, cfg, st); msg != "" && sameDef && strings.Contains(msg, "Common redeclared") && ctx.Run.Listed("SAME_DEF_NAME_TWO_FILES_ONE_PACKAGE") {
+						ctx.Run.Known("SAME_DEF_NAME_TWO_FILES_ONE_PACKAGE", fmt.Sprintf("C20/%s: history %v: %s", name, h, trunc(msg, 200)), replay)
+					} else if msg != "" {
 						ctx.Run.Violation("packages-do-not-build:"+normCompileMsg(msg), fmt.Sprintf("C20/%s: history %v: %s", name, h, msg), replay)
 					}
 				}
@@ -561,4 +605,96 @@ func c20SameName(ctx *Ctx) {
 			ctx.Run.Violation("same-type-name", fmt.Sprintf("DoFile order %v: neither schema is emitted", order), replay)
 		}
 	}
+}
+
+// c20ComposeRenamed: the files of history h declare some names differently (same definition name in two files mapped to
+// one package). The joint state must then equal the union of the single-file states up to one consistent renaming of
+// identifiers: the later file's colliding declarations are given fresh names first, then the bijection is searched.
+func c20ComposeRenamed(h []int, obs map[string]obsState, joint obsState) string {
+	type dk struct{ file, kind, name string }
+	perFile := map[string][]decl{} // output file -> declarations of the expected union
+	seenText := map[dk]string{}
+	done := map[int]bool{}
+	for _, j := range h {
+		if done[j] {
+			continue
+		}
+		done[j] = true
+		alone := obs[fmt.Sprint([]int{j})]
+		for f, ds := range alone.files {
+			// names of this file's declarations that collide with an earlier, different declaration
+			ren := map[string]string{}
+			for _, d := range ds {
+				if prev, ok := seenText[dk{f, d.kind, d.name}]; ok && prev != d.text && (d.kind == "type" || d.kind == "const" || d.kind == "var") {
+					ren[d.name] = fmt.Sprintf("H%dx%s", j, d.name)
+				}
+			}
+			for _, d := range ds {
+				if d.kind == "package" {
+					continue
+				}
+				nd := decl{d.kind, d.name, d.text}
+				if len(ren) > 0 {
+					nd.text = renameWords(d.text, ren)
+					if r, ok := ren[d.name]; ok {
+						nd.name = r
+					} else if i := strings.IndexByte(d.name, '.'); i > 0 {
+						if r, ok := ren[d.name[:i]]; ok {
+							nd.name = r + d.name[i:]
+						}
+					}
+				}
+				if prev, ok := seenText[dk{f, nd.kind, nd.name}]; ok && prev == nd.text {
+					continue // shared (identical) declaration
+				}
+				seenText[dk{f, nd.kind, nd.name}] = nd.text
+				perFile[f] = append(perFile[f], nd)
+			}
+		}
+	}
+	render := func(ds []decl) string {
+		var sb strings.Builder
+		sb.WriteString("package p\n\n")
+		for _, d := range ds {
+			switch d.kind {
+			case "type", "const", "var":
+				sb.WriteString(d.kind + " " + d.text + "\n\n")
+			case "func":
+				sb.WriteString(d.text + "\n\n")
+			}
+		}
+		return sb.String()
+	}
+	for f, want := range perFile {
+		got, ok := joint.files[f]
+		if !ok {
+			return "output " + f + " is missing"
+		}
+		var gd []decl
+		for _, d := range got {
+			if d.kind != "package" {
+				gd = append(gd, d)
+			}
+		}
+		wi, gi := declSet(want, "import"), declSet(gd, "import")
+		for k := range wi {
+			if _, ok := gi[k]; !ok {
+				return "output " + f + ": import " + k + " is missing"
+			}
+		}
+		for k := range gi {
+			if _, ok := wi[k]; !ok {
+				return "output " + f + ": unexpected import " + k
+			}
+		}
+		if msg := relRename(render(want), render(gd)); msg != "" {
+			return "output " + f + ": " + msg
+		}
+	}
+	for f := range joint.files {
+		if _, ok := perFile[f]; !ok {
+			return "unexpected output " + f
+		}
+	}
+	return ""
 }
